@@ -45,6 +45,14 @@ CHECKS = {
   design_ref="DESIGN.md section 7.2",
   note="Trusted: ringqp.Add for summing keys, the harness' canonical comparison. Points are drawn distinct and non-zero modulo every prime (Shamir precondition). The downstream 'same decryptions as the N-party run' clause follows from equality of the summed key and is exercised end-to-end in C16's threshold mode.",
 ),
+"C16": dict(
+  engine="simnet",
+  technique="deterministic discrete-event network simulation of collective key switching, share conversion, refresh and masked transform for both schemes: seeded delay/reordering, duplication, in-transit serialization, aggregator trees and aliasing forms, t-out-of-N deployments with crashed parties; message-model and smudging oracles computed with the simulator's knowledge of all secrets; minimised choice-trace replay",
+  category="exploration",
+  text="Each run draws a scheme (integer with drawn plaintext modulus, or approximate with drawn scale / slot count / ring type), a deployment of 1..8 parties (one third of the runs: a t-out-of-N deployment whose survivors use additive shares from the Combiner), an input ciphertext at a drawn level and scale after drawn homomorphic operations, a noise-flooding sigma, and 1-3 protocol instances among key switch to a shared key, collective decryption, public-key switch, encryption-to-shares and back, refresh and masked transform (linear slot maps, decode/encode flags). Shares travel over the simulated transport into a 1-2 level aggregator tree. Oracles: aggregate equals the index-order aggregate; the target key decrypts to the original plaintext within N times the hard share bound; additive shares sum to the plaintext (exactly mod t when a hard noise budget is left; within N*bound per coefficient for the approximate scheme); re-encryption / refresh / transform outputs decode to the message resp. f(message) at the requested level and scale with the documented metadata; each share's error, recovered with the party's secrets, lies within the declared bound and has empirical sigma >= (1-8/sqrt(2n)) of the requested smudging sigma; inputs are untouched.",
+  design_ref="DESIGN.md section 7.3",
+  note="Trusted: lattigo encoders/decryptor/ring arithmetic as substrate; plaintext expectations are computed independently (Go integers, big floats). Exactness (integer scheme) only when 4*T*(measured input noise + N*share bound) < Q; approximate scheme compared with a hard slot tolerance n*(coefficient bound)/scale. Transform functions are linear. Parameter switching (different input/output parameters) is not drawn yet.",
+),
 "C17": dict(
   engine="histsim",
   technique="deterministic simulation of call histories on samplers and their level views over one keyed source, twin execution from the same key, reset-and-replay, per-call distribution-contract invariants; minimised choice-trace replay",
